@@ -217,7 +217,7 @@ func (f *Frame) inline(fn *ssa.Function, args, bindings []Val, in ssa.Instructio
 func (f *Frame) havocCall(name string, in ssa.Instruction, st *PState, rt types.Type, args []Val) Val {
 	ex := f.ex
 	ex.vc.unverifiedCallees[strings.ReplaceAll(name, "github.com/Oneledger/protocol/", "")] = true
-	f.havocAll(st)
+	f.havocAllKeep(st)
 	return ex.havocVal("hv", rt)
 }
 
@@ -243,6 +243,18 @@ func (f *Frame) havocAll(st *PState) {
 	nb := ex.vc.Fresh("brk", SInt)
 	ex.vc.Assume(fmt.Sprintf("(>= %s %s)", nb, st.brk))
 	st.brk = nb
+}
+
+// havocAllKeep: a call without a frame. Everything is arbitrary afterwards except the caller's own local cells
+// whose address never leaves the function (the callee cannot hold a pointer to them).
+func (f *Frame) havocAllKeep(st *PState) {
+	if f.ex.aim != nil {
+		f.havocAll(st)
+		return
+	}
+	before := st.clone()
+	f.havocAll(st)
+	f.keepUnwrittenCellsX(before, st, nil, nil, true)
 }
 
 // bindParams builds the spec variable environment of a contract.
@@ -319,6 +331,9 @@ func (f *Frame) applyContract(ct *Contract, fn *ssa.Function, sig *types.Signatu
 	if ct.Trusted {
 		ex.vc.trusted[shortPkg(ct.Pkg)+"."+ct.Target] = true
 	}
+	if ct.TrustFrame {
+		ex.vc.trusted[shortPkg(ct.Pkg)+"."+ct.Target+" trustframe (modifies clause assumed, not checked on the body)"] = true
+	}
 	// interior-pointer receivers/arguments: copy-in / copy-out
 	type cpy struct {
 		lv  *LValue
@@ -381,7 +396,7 @@ func (f *Frame) applyContract(ct *Contract, fn *ssa.Function, sig *types.Signatu
 	ex.vc.Assume(fmt.Sprintf("(>= %s %s)", nb, pre.brk))
 	// post heap
 	if ct.ModAll || (len(ct.Modifies) == 0 && !ct.ModNothing) {
-		f.havocAll(st)
+		f.havocAllKeep(st)
 		st.brk = nb
 	} else {
 		env.what = "modifies of " + name
@@ -422,6 +437,10 @@ func (f *Frame) applyContract(ct *Contract, fn *ssa.Function, sig *types.Signatu
 	}
 	for _, en := range ct.Ensures {
 		ex.vc.AssumeIf(st.reach, penv.boolE(en.Expr))
+	}
+	for _, en := range ct.Trusts {
+		ex.vc.AssumeIf(st.reach, penv.boolE(en.Expr))
+		ex.vc.trusted[shortPkg(ct.Pkg)+"."+ct.Target+" trusts "+en.Src] = true
 	}
 	for _, en := range ct.Grants {
 		ex.vc.AssumeIf(st.reach, penv.boolE(en.Expr))
@@ -1002,6 +1021,8 @@ func (f *Frame) loopHeader(h *ssa.BasicBlock, li *loopInfo, st *PState, edges []
 	}
 	if !li.modAll && ex.aim == nil {
 		f.keepUnwrittenCells(before, st, func(b *ssa.BasicBlock) bool { return li.body[b] }, nil)
+	} else if ex.aim == nil {
+		f.keepUnwrittenCellsX(before, st, func(b *ssa.BasicBlock) bool { return li.body[b] }, nil, true)
 	}
 	for _, phi := range phis {
 		v := ex.havocVal("lp_"+phi.Name(), phi.Type())
@@ -1547,6 +1568,12 @@ func (f *Frame) iterateCall(ct *Contract, sig *types.Signature, args []Val, vars
 // keepUnwrittenCells: after a loop/iterator havoc, the cells of this frame's address-taken locals that no
 // instruction of the loop body (inBody) or of the callback closure (cb) can write keep their content.
 func (f *Frame) keepUnwrittenCells(before, after *PState, inBody func(*ssa.BasicBlock) bool, cb *ssa.Function) {
+	f.keepUnwrittenCellsX(before, after, inBody, cb, false)
+}
+
+// escAnywhere: the region contains calls that may change anything (no frame); a cell is then only kept when its
+// address does not escape anywhere in the function (not just inside the region), so no callee can hold it.
+func (f *Frame) keepUnwrittenCellsX(before, after *PState, inBody func(*ssa.BasicBlock) bool, cb *ssa.Function, escAnywhere bool) {
 	ex := f.ex
 	writes := func(addr ssa.Value, where func(ssa.Instruction) bool) bool {
 		// does any instruction selected by `where` store through addr (or an address derived from it), or pass it on?
@@ -1558,12 +1585,15 @@ func (f *Frame) keepUnwrittenCells(before, after *PState, inBody func(*ssa.Basic
 			}
 			seen[v] = true
 			for _, r := range *v.Referrers() {
-				if _, isMC := r.(*ssa.MakeClosure); !isMC && !where(r) {
+				if _, isMC := r.(*ssa.MakeClosure); !isMC && !where(r) && !escAnywhere {
 					continue // closures capturing the cell are inspected wherever they are created
 				}
 				switch i := r.(type) {
 				case *ssa.Store:
 					if i.Addr == v {
+						if !where(r) {
+							continue // a store outside the region (escAnywhere scan): not a write of the region
+						}
 						return true
 					}
 					if i.Val == v {
@@ -1605,7 +1635,7 @@ func (f *Frame) keepUnwrittenCells(before, after *PState, inBody func(*ssa.Basic
 		hn, hs := ex.heapOfType(al.Type().(*types.Pointer).Elem())
 		bt, ok1 := before.heap[hn]
 		at, ok2 := after.heap[hn]
-		if ex.aim != nil && ok1 && !ok2 {
+		if (ex.aim != nil || escAnywhere) && ok1 && !ok2 {
 			at, ok2 = ex.H(after, hn, hs), true
 		}
 		if !ok1 || !ok2 || bt == at {
